@@ -180,10 +180,21 @@ func (p *parser) scan() (tkn token.Token, literal string, idx file.Idx) { //noli
 		switch chr := p.chr; {
 		case isIdentifierStart(chr):
 			var err error
+			start := p.chrOffset
 			literal, err = p.scanIdentifier()
 			if err != nil {
 				tkn = token.ILLEGAL
 				break
+			}
+			if len(literal) > 1 && literal != p.str[start:p.chrOffset] {
+				// Written with a \u escape: a reserved word spelled this way is
+				// still reserved but is not the keyword or literal token
+				// (ECMA-262 5.1 - 7.6, 7.6.1); it can only be a property name.
+				reserved, strict := token.IsKeyword(literal)
+				if (reserved != 0 && !strict) || literal == "true" || literal == "false" || literal == "null" {
+					p.insertSemicolon = true
+					return token.KEYWORD, literal, idx
+				}
 			}
 			if len(literal) > 1 {
 				// Keywords are longer than 1 character, avoid lookup otherwise
